@@ -393,7 +393,8 @@ fn case_values(bytes: &[u8], ctx: &mut Ctx) -> CaseResult {
     report_drift_once(ctx);
     let mut s = Src::new(bytes);
     let reg = registry();
-    let e = &reg[s.below(reg.len())];
+    // uniform over the registry (two choice bytes; monotone, 0 = first entry)
+    let e = &reg[(usize::from(s.u16()) * reg.len()) >> 16];
     let v = (e.generate)(&mut s);
     let gl = take_gen_labels();
     let enc = check_value(e, &*v, ctx)?;
